@@ -124,6 +124,17 @@ def run(rep, rng, tier):
         xs = [int(round(v * 4)) * (top // int(4 * m + 1)) for v in base]
         add_zc(xs, k % 2 == 0, 0.0, store=store)
         add_sp(xs, 0.0, store=store)
+    # all-zero series: 'for every series the switched-peak indices are strictly ascending' (constant non-zero series are fine:
+    # the proved value there is [0]); listed in known_findings.json while it persists
+    for n in (1, 2, 3, 7):
+        r = guarded(sp, np.zeros(n), tol=0.0)
+        if isinstance(r, ImplError):
+            rep.violation('get_switched_peak_array_indices[all-zero series]', {'function': 'get_switched_peak_array_indices', 'args': {'values': [0.0] * n, 'tol': 0.0}, 'impl_error': str(r)})
+            continue
+        out = [int(i) for i in r]
+        if any(b <= a for a, b in zip(out, out[1:])):
+            rep.violation('get_switched_peak_array_indices[all-zero series, not strictly ascending]',
+                          {'function': 'get_switched_peak_array_indices', 'args': {'values': [0.0] * n, 'tol': 0.0}, 'impl': out})
     rep.extra['exhaustive'] = True
     rep.extra['exhaustive_space'] = 'all series over {-2..2} up to length %d and {-3..3} up to %d' % (L2, L3)
     rep.correspond('model.K_peaks', 'chk_zc', zcs, max_cases=4000)
